@@ -29,8 +29,8 @@ type lckWorld struct {
 }
 
 func checkC20(w *World, r *Result) {
-	r.Explanation = "Decides, on every control-flow path of package generator (all schedules, all installed/missing/failing tool combinations, the tool being abstracted to an opaque exec call returning nil or an error): LCK-1 every access to a probe flag of Formatters happens with the cache mutex held; LCK-2 every Lock is released on all exits and never re-acquired while held; LCK-3 the external probe is control-dependent on the flag being nil and is followed on all paths by a store of a non-nil pointer into the same field, the cached boolean is (probe error == nil) and is what the probe function returns; LCK-4 the probe functions use pairwise distinct fields and FormatFile calls each exactly once, each run command being named in its probe's arguments; LCK-5 in FormatFile, per path: at most one probe; probe true => exactly one formatter run whose error is the returned value; probe false/no probe => no process/file-system call and nil is returned; LCK-6 Formatters is never copied and only has pointer-receiver methods; LCK-7 cmd shares one package-level cache and calls FormatFile once per goroutine. Does not decide: races inside the external tools on the file itself, nor saveOutputs turning an error into a goroutine panic."
-	r.Rules = []string{"LCK-1 guarded-by", "LCK-2 lock pairing", "LCK-3 probe typestate", "LCK-4 bijection", "LCK-5 FormatFile paths", "LCK-6 no copies", "LCK-7 sharing in cmd"}
+	r.Explanation = "Decides, on every control-flow path of package generator (all schedules, all installed/missing/failing tool combinations, the tool being abstracted to an opaque exec call returning nil or an error): LCK-1 every access to a probe flag of Formatters happens with the cache mutex held; LCK-2 every Lock is released on all exits and never re-acquired while held; LCK-3 the external probe is control-dependent on the flag being nil and is followed on all paths by a store of a non-nil pointer into the same field, the cached boolean is (probe error == nil) and is what the probe function returns; LCK-4 the probe functions use pairwise distinct fields and FormatFile calls each exactly once, each run command being named in its probe's arguments; LCK-5 in FormatFile, per path: at most one probe; probe true => exactly one formatter run whose error is the returned value; probe false/no probe => no process/file-system call and nil is returned; LCK-6 Formatters is never copied and only has pointer-receiver methods; LCK-7 cmd shares one package-level cache and calls FormatFile once per goroutine; LCK-8 a goroutine started by the production code stores into a captured variable only when no other goroutine can touch that cell (so the error of a formatter run is not overwritten by another run). Does not decide: races inside the external tools on the file itself, nor saveOutputs turning an error into a goroutine panic."
+	r.Rules = []string{"LCK-1 guarded-by", "LCK-2 lock pairing", "LCK-3 probe typestate", "LCK-4 bijection", "LCK-5 FormatFile paths", "LCK-6 no copies", "LCK-7 sharing in cmd", "LCK-8 goroutine writes"}
 	r.TrustedBase = []string{"go/ssa CFG construction (x/tools v0.29.0)", "Go memory model for sync.Mutex", "(*exec.Cmd).Run treated as an opaque call returning an error", "package-level visibility of the unexported Formatters fields", "this checker (gmverif lck.go)"}
 	r.Assumptions = []string{"the external tool is abstracted to: Run returns nil or non-nil", "no reflection/unsafe access to Formatters (checked: package generator imports neither)"}
 
@@ -77,6 +77,7 @@ func checkC20(w *World, r *Result) {
 	lw.formatFile()
 	lw.noCopies()
 	lw.sharing()
+	lw.goroutineWrites()
 	r.note("flag_fields", len(lw.flagIdx))
 	r.note("flag_accesses", lw.accesses)
 	if lw.accesses < 2*len(lw.flagIdx) {
@@ -1162,4 +1163,92 @@ func inLoop(b *ssa.BasicBlock) bool {
 		stack = append(stack, x.Succs...)
 	}
 	return false
+}
+
+// goroutineWrites implements LCK-8: a function literal started with `go` never stores into a variable it
+// captures when another goroutine can touch the same cell: the parent after the `go` statement (before the cell
+// is re-allocated by the next loop iteration), or another instance of the literal started by a later iteration
+// (the cell is allocated outside the loop). sync primitives are method calls, not stores, and are unaffected.
+func (lw *lckWorld) goroutineWrites() {
+	w, r := lw.w, lw.r
+	n := 0
+	for _, f := range lw.funcs {
+		for _, b := range f.Blocks {
+			for gi, ins := range b.Instrs {
+				g, ok := ins.(*ssa.Go)
+				if !ok {
+					continue
+				}
+				mc, ok := g.Call.Value.(*ssa.MakeClosure)
+				if !ok {
+					continue
+				}
+				lit := mc.Fn.(*ssa.Function)
+				n++
+				name := fname(w, f)
+				for bi, bnd := range mc.Bindings {
+					al, ok := bnd.(*ssa.Alloc)
+					if !ok || bi >= len(lit.FreeVars) {
+						continue
+					}
+					fv := lit.FreeVars[bi]
+					// does the literal store into the captured cell?
+					var storePos token.Pos
+					stores := false
+					for _, lb := range lit.Blocks {
+						for _, li := range lb.Instrs {
+							if st, ok := li.(*ssa.Store); ok && st.Addr == ssa.Value(fv) {
+								stores = true
+								storePos = st.Pos()
+							}
+						}
+					}
+					if !stores {
+						continue
+					}
+					cons := "goroutine stores into captured " + fv.Name()
+					// (a) the cell is allocated outside the loop the go statement is in: every iteration's goroutine shares it
+					if inLoop(b) && !inLoop(al.Block()) {
+						r.bad("LCK-8", name, cons, w.Pos(storePos), "the variable is declared outside the loop that starts the goroutines: all of them (and the parent) write the same cell without synchronisation -- a data race, and the value read afterwards is whichever write came last (a formatter error can be overwritten by a later success)")
+						continue
+					}
+					// (b) the parent touches the cell after the go statement, before the cell is re-allocated
+					touched := token.NoPos
+					seen := map[*ssa.BasicBlock]bool{}
+					var walk func(blk *ssa.BasicBlock, from int)
+					walk = func(blk *ssa.BasicBlock, from int) {
+						for i := from; i < len(blk.Instrs); i++ {
+							in := blk.Instrs[i]
+							if in == ssa.Instruction(al) {
+								return // a fresh cell from here on
+							}
+							switch x := in.(type) {
+							case *ssa.Store:
+								if x.Addr == ssa.Value(al) {
+									touched = x.Pos()
+								}
+							case *ssa.UnOp:
+								if x.Op == token.MUL && x.X == ssa.Value(al) {
+									touched = x.Pos()
+								}
+							}
+						}
+						for _, s := range blk.Succs {
+							if !seen[s] {
+								seen[s] = true
+								walk(s, 0)
+							}
+						}
+					}
+					walk(b, gi+1)
+					if touched.IsValid() {
+						r.bad("LCK-8", name, cons, w.Pos(storePos), "the parent reads or writes the same variable at "+w.Pos(touched)+" after starting the goroutine, without synchronisation: a data race")
+					} else {
+						r.ok("LCK-8", name, cons, w.Pos(storePos), "the cell is allocated per loop iteration and the parent does not touch it between the go statement and its re-allocation: only this goroutine uses it", true)
+					}
+				}
+			}
+		}
+	}
+	r.note("go_statements", n)
 }
